@@ -528,6 +528,15 @@ class Sym:
     def __index__(self):
         raise Concretised("a symbolic value used as an index")
 
+    def __format__(self, spec):
+        # printing is environment: a symbolic value formats as its shadow value (f"{norm:14.12e}" in progress messages)
+        if not spec:
+            return repr(self)
+        try:
+            return format(float(self.shadow()), spec)
+        except Exception:
+            return repr(self)
+
     def __round__(self, n=None):
         raise Concretised("round() of a symbolic value")
 
